@@ -202,6 +202,7 @@ def verifyAnswer (cache : Option (String × Except VDecErr VerifierM)) (toks : L
       match dv with
       | .error .notEnoughBytes => ("err:verifier-NotEnoughBytes", cache)
       | .error .invalid => ("err:verifier-invalid", cache)
+      | .error .domain => ("err:verifier-domain", cache)
       | .ok v =>
         match ProofM.fromBytes? pb with
         | none => ("err:proof-decode", cache)
@@ -229,6 +230,7 @@ def verifyAnswer (cache : Option (String × Except VDecErr VerifierM)) (toks : L
       | .ok v => ("ok " ++ showBytes v.toBytes, cache)
       | .error .notEnoughBytes => ("err:verifier-NotEnoughBytes", cache)
       | .error .invalid => ("err:verifier-invalid", cache)
+      | .error .domain => ("err:verifier-domain", cache)
     | none => ("bad-request", cache)
   | ["proofdec", phex] =>
     match parseBytes? phex with
